@@ -115,6 +115,32 @@ def make_scratch(repo, swap_ptr16=False, features_note=None, files=None):
     return d, dst
 
 
+class _Res:
+    def __init__(self, rc, out, err):
+        self.returncode, self.stdout, self.stderr = rc, out, err
+
+
+def run_group(cmd, cwd, env, timeout):
+    """subprocess.run(capture_output, text) in its own process group; on timeout the WHOLE group is killed (cargo-kani's
+    cbmc children would otherwise survive and keep cores and memory busy) and subprocess.TimeoutExpired is re-raised."""
+    import signal
+    p = subprocess.Popen(cmd, cwd=cwd, env=env, stdout=subprocess.PIPE, stderr=subprocess.PIPE, text=True, start_new_session=True)
+    try:
+        out, err = p.communicate(timeout=timeout)
+        return _Res(p.returncode, out, err)
+    except subprocess.TimeoutExpired:
+        try:
+            os.killpg(os.getpgid(p.pid), signal.SIGKILL)
+        except Exception:
+            pass
+        try:
+            out, err = p.communicate(timeout=30)
+        except Exception:
+            out, err = '', ''
+        raise subprocess.TimeoutExpired(cmd, timeout, output=out, stderr=err)
+
+
+
 def run_kani(dst, harnesses, features=None, no_default=False, extra=(), timeout=1800, playback=False, jobs=None, unwind=None):
     """Runs the given harnesses in one cargo-kani invocation.  Returns dict harness -> result."""
     os.makedirs(TARGET, exist_ok=True)
@@ -139,7 +165,7 @@ def run_kani(dst, harnesses, features=None, no_default=False, extra=(), timeout=
     import fcntl
     fcntl.flock(lock, fcntl.LOCK_EX)
     try:
-        r = subprocess.run(cmd, cwd=dst, env=env, capture_output=True, text=True, timeout=timeout)
+        r = run_group(cmd, dst, env, timeout)
         out = r.stdout + '\n' + r.stderr
         rc = r.returncode
     except subprocess.TimeoutExpired as e:
@@ -228,7 +254,7 @@ def playback(dst, harness, features=None, no_default=False, timeout=900, synth=F
     if features:
         cmd += ['--features', features]
     try:
-        r = subprocess.run(cmd, cwd=dst, env=env, capture_output=True, text=True, timeout=timeout)
+        r = run_group(cmd, dst, env, timeout)
     except subprocess.TimeoutExpired:
         return None
     out = r.stdout + r.stderr
@@ -263,7 +289,7 @@ def playback(dst, harness, features=None, no_default=False, timeout=900, synth=F
             cmd2 += ['--features', features]
         cmd2 += ['--', name]
         try:
-            r2 = subprocess.run(cmd2, cwd=dst, env=env, capture_output=True, text=True, timeout=timeout)
+            r2 = run_group(cmd2, dst, env, timeout)
             full = r2.stdout + r2.stderr
             verdict = re.search(r'test \S*%s \.\.\. (ok|FAILED)' % re.escape(name), r2.stdout)
             failed = bool(verdict and verdict.group(1) == 'FAILED') or (verdict is None and 'panicked at' in full and r2.returncode != 0)
